@@ -404,7 +404,9 @@ class DocstringParser(AbstractDocstringParser):
                 # The name was bound again later in the module (e.g. by a guarded re-import of a faster implementation),
                 # so the docstring parser only knows the alias and there is no docstring to be found
                 return None
-            elif part == "__init__" and griffe_node.is_class:
+            elif griffe_node.is_class and part not in griffe_node.members:
+                # Methods that the class does not define itself but that are synthesised for it (the constructor and the
+                # comparison methods of dataclasses, for example) have no docstring
                 return None
             else:  # pragma: no cover
                 raise ValueError(
